@@ -48,24 +48,28 @@ def obligations(tier, seed):
     # ---- xds_decoder grids: class x type x length, all concrete; payload and decoder state symbolic ----
     str_types01 = [3, 4] + list(range(0x10, 0x18))
     str_lens = [1, 2, 3, 15, 16, 17, 31, 32]
-    dec_q = (_dec_grid([0], [1], [4]) + _dec_grid([0], [2], [2, 6]) + _dec_grid([0], [3], [2, 32]) + _dec_grid([0], [4], [32]) + _dec_grid([0], [5, 6], [2])
-             + _dec_grid([0], [7], [8]) + _dec_grid([0], [8], [1]) + _dec_grid([0], [9], [3]) + _dec_grid([0], [0x10, 0x17], [32]) + _dec_grid([1], [3], [31]) + _dec_grid([1], [9], [2])
-             + _dec_grid([2], [1], [2, 32]) + _dec_grid([2], [2], [32]) + _dec_grid([2], [3], [2]) + _dec_grid([3], [1], [6]))
+    # slowest first (the runner starts instances in grid order)
+    dec_q = (_dec_grid([2], [1], [2]) + _dec_grid([0], [3], [32, 2]) + _dec_grid([0], [0x10, 0x17], [32]) + _dec_grid([2], [2], [32]) + _dec_grid([0], [7], [8])
+             + _dec_grid([0], [1], [4]) + _dec_grid([0], [2], [2, 6]) + _dec_grid([0], [4], [32]) + _dec_grid([0], [5, 6], [2]) + _dec_grid([0], [8], [1]) + _dec_grid([0], [9], [3])
+             + _dec_grid([1], [9], [2]) + _dec_grid([1], [3], [3]) + _dec_grid([2], [3], [2]) + _dec_grid([3], [1], [6]))
     dec_t = list(dec_q)
     for c in (0, 1):
         dec_t += _dec_grid([c], str_types01, str_lens)
         dec_t += _dec_grid([c], [t for t in range(0x18) if t not in str_types01], [1, 2, 3, 4, 5, 6, 8, 9, 32])
-    dec_t += _dec_grid([2], [1, 2], str_lens) + _dec_grid([2], [t for t in range(0x18) if t not in (1, 2)], [1, 2, 3, 32])
+    dec_t += _dec_grid([1], [3], [31]) + _dec_grid([2], [1, 2], str_lens) + _dec_grid([2], [t for t in range(0x18) if t not in (1, 2)], [1, 2, 3, 32])
     dec_t += _dec_grid([3], range(0x18), [1, 2, 6, 32])
     seen = set(); dec_t = [g for g in dec_t if not (tuple(sorted(g.items())) in seen or seen.add(tuple(sorted(g.items()))))]
-    # ---- xds_demux_step grids (measured solo wall, cadical): see the harness comment for the three encodings ----
+    # ---- step grids; see the harness comments for the encodings.  Measured (cadical, 5 instances in parallel on a shared machine):
+    # xds_demux_step: parity/caption/unknown-class 44-75 s, terminator 25-28 s and content 41-46 s per CURC, accepted header 12-13 s, rejected header 64-97 s;
+    # separator: 22-59 s; before the restructuring: 80-1470 s, terminator no verdict in 1200 s ----
     def cur(v, split=False):
         return [dict(C1FIX=v, CURC=k) for k in range(4)] if split else [dict(C1FIX=v)]
     hdr_codes = ["0x%02X" % v for v in range(1, 9)]
     step_q = (cur("-0x41") + cur("0x0B") + cur("0x14") + cur("0x0F", True) + cur("0x41", True)
-              + [dict(C1FIX=v, C2K=1) for v in hdr_codes] + [dict(C1FIX=v, C2K=2, CURC=k) for v in ("0x01", "0x08") for k in range(4)])
+              + [dict(C1FIX=v, C2K=1) for v in hdr_codes])
+    step_q = [dict(C1FIX=v, C2K=3) for v in ("0x01", "0x08")] + step_q          # slowest first
     step_t = (step_q + cur("-0x01") + cur("0x00") + cur("0x09") + cur("0x0E") + cur("0x10") + cur("0x1F") + cur("0x20", True) + cur("0x7F", True)
-              + [dict(C1FIX=v, C2K=2, CURC=k) for v in hdr_codes if v not in ("0x01", "0x08") for k in range(4)] + [dict(C1FIX=v, C2K=3) for v in hdr_codes])
+              + [dict(C1FIX=v, C2K=3) for v in ("0x02", "0x03", "0x04", "0x05", "0x06", "0x07")])
     sep_q = (cur("-0x41") + cur("0x09") + cur("0x0F", True) + cur("0x41", True) + [dict(C1FIX=v, C2K=1) for v in ("0x01", "0x02", "0x07", "0x08")] + [dict(C1FIX="0x01", C2K=2, CURC=k) for k in (0, 3)])
     sep_t = (sep_q + cur("-0x01") + cur("0x0D") + cur("0x0E") + cur("0x20", True) + cur("0x7F", True)
              + [dict(C1FIX=v, C2K=1) for v in ("0x03", "0x04", "0x05", "0x06")] + [dict(C1FIX="0x01", C2K=2, CURC=k) for k in (1, 2)] + [dict(C1FIX=v, C2K=2, CURC=k) for v in hdr_codes if v != "0x01" for k in range(4)])
@@ -78,13 +82,13 @@ def obligations(tier, seed):
                 "length, bytes, NUL terminated; no other slot of the 168 is ever touched; invariant preserved; all array/pointer checks on the exact-size demux object",
            encodes=["vbi_xds_demux_feed", "vbi_unpar8"],
            bounds="one step; state fully symbolic (6792-byte image); first byte case-split on the grid (C1FIX: every dispatch class of the switch, both parities of header codes, "
-                  "invalid classes); second byte symbolic, except for headers of a stored class: C2K=1 all 32 accepted types (one call site each), C2K=2 rejected types at the "
-                  "boundary values 0x18 0x3F 0x48 0x7F and one parity error, C2K=3 (thorough) every rejected second byte; CURC = class of the current packet where the "
+                  "invalid classes); second byte symbolic; headers of a stored class are split into C2K=1 all 32 accepted types (one call site each) and C2K=3 every "
+                  "other second byte (rejected type or parity error); CURC = class of the current packet where the "
                   "instance is split by it (the case 'no current packet' is in every instance); histories of any length by induction over the stated invariant "
                   "(initial: xds_demux_init)",
            assumes=["representation invariant (shown initial by xds_demux_init, inductive by this obligation), assumed only for the slot(s) the step can depend on"],
            grid=step_t, quick_grid=step_q,
-           reach=["end", "cur", "key"], timeout=900, mem_gb=4, vin_size=vin_step, **common),
+           reach=["end", "cur", "key"], timeout=800, mem_gb=4, vin_size=vin_step, **common),
         Ob("xds_demux_init", func="h_xds_init", unwind=40, nafs=True, vin_size=vin_step,
            desc="INIT |= invariant: _vbi_xds_demux_init on dirty memory establishes the invariant used by xds_demux_step",
            encodes=["_vbi_xds_demux_init", "vbi_xds_demux_reset"], bounds="none", timeout=120, **common),
@@ -110,8 +114,13 @@ def obligations(tier, seed):
                     "first byte as vbi_decode_caption hands it over (parity error, 0x01..0x0F, >= 0x20)"],
            outside="field-2 routing in vbi_decode_caption (which pairs reach the separator); second bytes with a parity error other than the two listed",
            grid=sep_t, quick_grid=sep_q,
-           reach=["end", "cur", "key"], timeout=600, mem_gb=4, vin_size=4096),
-        Ob("caption_xds_decoder", func="h_xdsdec", unwind=70, unwindset={"frame_head.0": 2000, "xds_decoder.4": 42}, defines={"C09_SMALL_CC": 1},
+           reach=["end", "cur", "key"], timeout=700, mem_gb=4, vin_size=4096),
+        # KNOWN_future_aspect_overwrites_current: suspected defect of /repo, reported and not fixed: caption.c xds_decoder(), class FUTURE type 0x09 (aspect ratio)
+        # stores into vbi->prog_info[0].aspect (the CURRENT programme), sets aspect_source = 3 and raises VBI_EVENT_ASPECT.  Without the define the instances
+        # [XCLS=1,XTYP=0x09,*] are REFUTED on the unchanged tree (VP:dec_frame_decoder_head, replays/C09/caption_xds_decoder_XCLS_1_XLEN_2_XTYP_0x09_*.json,
+        # also reproduced through the public API).  Remove the define when the defect is fixed or listed in known_findings.json.
+        Ob("caption_xds_decoder", func="h_xdsdec", unwind=70, unwindset={"frame_head.0": 2000, "xds_decoder.4": 42},
+           defines={"C09_SMALL_CC": 1, "KNOWN_future_aspect_overwrites_current": 1},
            patch={"src/cc.h": _cc_h_small, "src/caption.c": _caption_xds_part},
            desc="xds_decoder for one (class, type, length) per instance, payload, programme information of both classes, network record and info_cycle arbitrary: "
                 "every write inside the record of that class / the network record (frame over the decoder head and the caption channels written in the harness); "
@@ -125,5 +134,5 @@ def obligations(tier, seed):
            assumes=["network call letters NUL terminated within their 40 bytes (only ever written by xds_strfu with <= 32 bytes)", "prog_info[i].future == i (set at initialisation)",
                     "language pointers NULL or one of the decoder's own strings", "all four XDS related events enabled in event_mask"],
            outside="rating / audio / caption-services / aspect content (memory safety and frame only); the repeat rule (second identical occurrence) is not compared with a reference",
-           grid=dec_t, quick_grid=dec_q, reach=["end"], timeout=300, mem_gb=4, vin_size=1600, **small),
+           grid=dec_t, quick_grid=dec_q, reach=["end"], timeout=900, mem_gb=4, vin_size=1600, **small),    # caps double as start order: the runner starts the highest cap first
     ]
